@@ -18,6 +18,22 @@ fn main() {
         }
         return;
     }
+    if args.len() >= 2 && args[1] == "pq" {
+        use vharness::pqgen::*;
+        set_quiet(true);
+        // vcheck pq <enc> <v1,v2,...|null> [pages]
+        let enc = match args.get(2).map(|s| s.as_str()) { Some("dbp") => Enc::DeltaBinaryPacked, Some("dict") => Enc::Dict, Some("bss") => Enc::ByteStreamSplit, _ => Enc::Plain };
+        let vals: Vec<Option<PV>> = args.get(3).map(|s| s.split(',').map(|x| if x == "null" { None } else { Some(PV::I32(x.parse().unwrap())) }).collect()).unwrap_or_default();
+        let pages: Vec<usize> = args.get(4).map(|s| s.split(',').map(|x| x.parse().unwrap()).collect()).unwrap_or(vec![1000]);
+        let optional = vals.iter().any(|v| v.is_none());
+        let cols = vec![Column { name: "a".into(), phys: Phys::Int32, logical: Logical::None, optional, values: vals, enc, old_dict_id: false, v2: false, codec: Codec::None, levels: LevelMode::Rle, stats: StatsMode::Exact, page_rows: pages }];
+        let (bytes, _) = write_file(&cols, &[1000]);
+        if let Some(p) = args.get(5) { std::fs::write(p, &bytes).unwrap(); }
+        let mut d = Driver::new();
+        d.fs.put("f.parquet", bytes);
+        println!("{}", d.q("SELECT * FROM read_parquet('f.parquet')").brief());
+        return;
+    }
     if args.len() >= 3 && args[1] == "csv" {
         // vcheck csv <escaped content>...  (\n \r \t escapes)
         set_quiet(true);
@@ -109,6 +125,7 @@ fn main() {
             "C07" => vharness::checks::c07::run(tier),
             "C08" => vharness::checks::c08::run(tier),
             "C09" => vharness::checks::c09::run(tier),
+            "C10" => vharness::checks::c10::run(tier),
             "C12" => vharness::checks::c12::run(tier),
             "C13" => vharness::checks::c13::run(tier),
             "C14" => vharness::checks::c14::run(tier),
